@@ -107,6 +107,7 @@ def run_partition(v, case, env, exp_calls, axes, parts, order_seed, scratch, tag
         fixed = {a: s for a, (s, _) in zip(axes, combo)}
         selset = {a: idxs for a, (_, idxs) in zip(axes, combo)}
         probes.log_clear(log)
+        fixed_before = repr(fixed)
         try:
             with quiet():
                 pipeline.map(inputs, run_folder=folder, internal_shapes=ish, parallel=False, storage=storage,
@@ -114,6 +115,9 @@ def run_partition(v, case, env, exp_calls, axes, parts, order_seed, scratch, tag
         except Exception as e:  # noqa: BLE001
             v.bad(exc_sig(e, "refused-fixed_indices"), f"valid fixed_indices={fixed} refused: {exc_msg(e)}", fixed=str(fixed), **w)
             return False
+        if repr(fixed) != fixed_before:
+            # the dict IS the caller's description of the part (it may be used again for an axis of another length)
+            v.bad("fixed_indices-argument-rewritten", f"map rewrote the caller's fixed_indices dict: {fixed_before} -> {fixed!r}", **w)
         first = False
         v.count("partitioned_runs")
         if any(isinstance(s, slice) and s.step is not None and s.step < 0 for s in fixed.values()):
@@ -173,6 +177,49 @@ def final_full_run(v, case, env, pipeline, inputs, ish, folder, log, w, ctx, sto
                 v.bad(f"final-data-differs/{ctx}", f"{o} after all parts differs from a single full run", got=lo[:400], expected=exp[:400], **w)
                 return False
     return True
+
+
+def late_reducer(v, case, scratch, tag):
+    """The pipeline object first serves a partial run while an axis is NOT reduced; then the function that reduces that
+    axis is added to the same object (Pipeline.add); fixing the axis must be rejected from then on."""
+    if len(case["funcs"]) < 2:
+        return
+    used = {p for f in case["funcs"][:-1] for p in f["params"]}
+    trunc = {**case, "funcs": case["funcs"][:-1], "roots": {r: x for r, x in case["roots"].items() if r in used}}
+    try:
+        cand_t, _ = mapgen.fixable_axes(trunc)
+        _, reduced = mapgen.fixable_axes(case)
+    except Exception:  # noqa: BLE001
+        return
+    newly = [a for a in cand_t if a in reduced]
+    if not newly:
+        return
+    a = newly[0]
+    log = probes.new_log(scratch)
+    w = dict(case=mapgen.describe(case), axis=a, scenario="reducing function added after a partial run on the same pipeline object")
+    try:
+        with quiet():
+            p = mapgen.build_pipeline(trunc, log=log)
+            inputs_t = {k: x for k, x in mapgen.make_inputs(case).items() if k in trunc["roots"]}
+            p.map(inputs_t, run_folder=os.path.join(scratch, f"late-{tag}-a"), internal_shapes=mapgen.internal_shapes_arg(trunc), parallel=False,
+                  storage="file_array", fixed_indices={a: 0})
+            p.add(mapgen.build_funcs(case, log=log)[-1])
+    except Exception:  # noqa: BLE001  (preparation refused: not this scenario's subject)
+        v.count("late_reducer_preparation_refused")
+        return
+    probes.log_clear(log)
+    err = None
+    try:
+        with quiet():
+            p.map(mapgen.make_inputs(case), run_folder=os.path.join(scratch, f"late-{tag}-b"), internal_shapes=mapgen.internal_shapes_arg(case),
+                  parallel=False, storage="file_array", fixed_indices={a: 0})
+    except Exception as e:  # noqa: BLE001
+        err = e
+    v.count("rejection:reduced-axis-after-add")
+    if err is None:
+        v.bad("accepted:reduced-axis/after-add", f"fixed_indices={{{a!r}: 0}} accepted although the function added to the pipeline reduces {a}", **w)
+    elif probes.log_read(log):
+        v.bad("rejected-late:reduced-axis/after-add", "user functions ran before the rejection", **w)
 
 
 def rejections(v, case, cand, reduced, scratch):
@@ -244,8 +291,11 @@ def run_learners(v, case, env, exp_calls, cand, split, use_fixed, order_seed, sc
     for fixed in fixed_sets:
         try:
             with quiet():
+                fixed_before = repr(fixed)
                 ld = create_learners(pipeline, inputs, folder, ish, storage="file_array", cleanup=first,
                                      fixed_indices=fixed, split_independent_axes=split)
+                if repr(fixed) != fixed_before:
+                    v.bad("fixed_indices-argument-rewritten/learners", f"create_learners rewrote the caller's fixed_indices dict: {fixed_before} -> {fixed!r}", **w)
         except Exception as e:  # noqa: BLE001
             v.bad(exc_sig(e, f"create_learners-refused/split={split}/fixed={fixed is not None}"),
                   f"create_learners refused a valid request: {exc_msg(e)}", **w)
@@ -302,6 +352,7 @@ def run_case(desc):
             cand, reduced = axes_info(case)
             rng = random.Random(f"c06:{desc['seed']}:{i}")
             rejections(v, case, cand, reduced, scratch)
+            late_reducer(v, case, scratch, i)
             for k, (split, use_fixed) in enumerate([(False, False), (True, False), (False, True)]):
                 if not any(is_map(f) for f in case["funcs"]):
                     continue
